@@ -10,6 +10,10 @@ headers/*  z3 regular-expression inclusion: for each block-header recogniser the
            (parser.RE_*.pattern) composed with the pre-processing its dispatch site applies must accept every line
            of the spec language "header + optional whitespace + optional trailing comment".
 comment/*  CrossHair on the real _strip_inline_comment against a reference scanner.
+accounted/* every statement kind placed in every block context (if/elif/else arms, nested loops, helper functions with
+           and without docstrings, try bodies, the prologue): the firmware's symbolic trace must contain exactly the
+           events CPython's symbolic trace contains (lock-step F-vs-H differential, solver-decided per path pair), so a
+           statement that silently disappears - or lands in another block - is a trace difference.
 layout/*   the real pipeline on meaning-preserving re-layouts of skeleton scripts (comments at any column, trailing
            comments on every line incl. headers, blank/whitespace-only lines, indent unit 1..8 / tabs, trailing
            whitespace, optional spaces): emitted text must be byte-identical.  With REDUINO_VERIF=1 the parser's
@@ -467,6 +471,9 @@ def _work(item):
         return string_hash_obligation(item)
     if kind == "lemma":
         return comment_lemma(item[1])
+    if kind == "accounted":
+        from ..diffscript import ScriptDiff
+        return ScriptDiff(item[1], item[2], passes=2, budget_s=200).run()
     raise ValueError(kind)
 
 
@@ -486,6 +493,9 @@ def run(tier, seed, only=None):
         items.append(("layout", "layout/" + oid, src))
     for i, st in enumerate(HASH_STRINGS):
         items.append(("strhash", f"layout/hash_in_string/{i}", st))
+    # every statement kind in every block context leaves its observable effect in the firmware (nothing disappears)
+    for oid, src in skeletons.ctx_family(tier):
+        items.append(("accounted", "accounted/" + oid[4:], src))
     if only:
         items = [i for i in items if only in str(i[1])]
     results = run_obligations(items, _work)
@@ -497,12 +507,14 @@ def run(tier, seed, only=None):
                     "exists that the live pattern rejects.  _strip_inline_comment: CrossHair against a reference scanner over "
                     "the alphabet {space # ' \" \\ a :}.  Cross-check through the real pipeline: every skeleton is re-laid-out "
                     "in 13 meaning-preserving ways (ast-equal by construction) and must yield byte-identical firmware; with "
-                    "REDUINO_VERIF=1 the parser's ignored-line log may contain only host-only statements and fragments.",
+                    "REDUINO_VERIF=1 the parser's ignored-line log may contain only host-only statements and fragments.  accounted/*: "
+                    "the F-vs-H trace differential of C01 on the statement-kind x block-context product family.",
         functions_encoded=["parser._indent_of/_collect_block/_collect_if_structure/_collect_try_structure (pysym)",
                            "parser.RE_WHILE_TRUE/RE_WHILE/RE_FOR_RANGE/RE_IF/RE_ELIF/RE_ELSE/RE_TRY/RE_EXCEPT/RE_DEF (z3 regex)",
                            "parser._strip_inline_comment (CrossHair)", "parse()+emit() on re-laid-out scripts"],
         bounds={"block lines": n, "indent": "0..3 units; unit in {1 space, 2 spaces, tab}", "header line length": "<= 40",
-                "comment lemma": "len <= 5 (quick) / 7 over a 7-letter alphabet", "layout variants per script": 13},
+                "comment lemma": "len <= 5 (quick) / 7 over a 7-letter alphabet",
+                "accounted": "26 statement kinds x 19 block contexts, 2 loop passes, sensor values symbolic", "layout variants per script": 13},
         assumptions=["the layout cross-check is concrete (one run per variant); its deciding parts are the symbolic block/regex/"
                      "comment obligations", "Python requires block bodies to be indented deeper than their header"],
         stubs=[],
